@@ -245,29 +245,27 @@ theorem skip_sim (env : Env) (hf : env.faultAt = none) {α : Type} (p : Prog α)
     | cons b r =>
       obtain ⟨b', r', e, hb, hr⟩ := stackSim_cons_inv (hs ▸ h.stack)
       simp only [e]
-      have hevt : mkEvent w' .blockEnd b' (r'.head?.map (·.id)) = mkEvent w .blockEnd b (r.head?.map (·.id)) := by
-        rw [stackSim_head hr]; exact (mkEvent_eq h hb _ _).symm
-      rw [hevt, deliver_eq env hf, deliver_eq env.noSkip hf]
-      simp only [h.unmuted, Bool.false_eq_true, ↓reduceIte]
-      have hev := h.events
-      have hc := h.chain
-      rw [hs] at hc
-      obtain ⟨hc1, hc2⟩ := hc
       have hg : b'.isGlobal = b.isGlobal := hb.2.2.2.2.1.symm
-      have hpm' : b'.priorMuted = false := hb.2.2.2.2.2
-      cases hm : w.muted with
-      | true =>
-        have hd : skipDepth w = countPrior w.stack + 1 := by simp [skipDepth, hm]
-        have hpr : pruneState env.skip (w'.events ++ [mkEvent w .blockEnd b (r.head?.map (·.id))]) =
-            (countPrior w.stack, w.events) := by
-          rw [pruneState_snoc, hev, hd, pruneStep_end_muted _ _ _ _ (by simp [mkEvent])]
-        simp only [↓reduceIte, hg]
-        split
-        · -- global state popped while muted: error, not caught by `bounded`
-          refine ⟨rfl, ?_, ?_⟩
-          · simp [prune, hpr]
-          · intro hk; simp [keepsGoing, catchable] at hk
-        · rw [blockSim_view hb]
+      rw [hg]
+      split
+      · exact SimOut.of_sim h _
+      · have hevt : mkEvent w' .blockEnd b' (r'.head?.map (·.id)) = mkEvent w .blockEnd b (r.head?.map (·.id)) := by
+          rw [stackSim_head hr]; exact (mkEvent_eq h hb _ _).symm
+        rw [hevt, deliver_eq env hf, deliver_eq env.noSkip hf]
+        simp only [h.unmuted, Bool.false_eq_true, ↓reduceIte]
+        have hev := h.events
+        have hc := h.chain
+        rw [hs] at hc
+        obtain ⟨hc1, hc2⟩ := hc
+        have hpm' : b'.priorMuted = false := hb.2.2.2.2.2
+        cases hm : w.muted with
+        | true =>
+          have hd : skipDepth w = countPrior w.stack + 1 := by simp [skipDepth, hm]
+          have hpr : pruneState env.skip (w'.events ++ [mkEvent w .blockEnd b (r.head?.map (·.id))]) =
+              (countPrior w.stack, w.events) := by
+            rw [pruneState_snoc, hev, hd, pruneStep_end_muted _ _ _ _ (by simp [mkEvent])]
+          simp only [↓reduceIte]
+          rw [blockSim_view hb]
           apply ih
           constructor <;> simp [h.buf, h.anon, h.nextId, h.sigLocs, h.curLocs, h.startLoc, h.mainTok, h.debugLog, h.unmuted, hpm']
           · exact hr
@@ -278,21 +276,17 @@ theorem skip_sim (env : Env) (hf : env.faultAt = none) {α : Type} (p : Prog α)
             | false =>
               have : countPrior r = 0 := chainOK_false_count (by rwa [hp] at hc2)
               simp [skipDepth, countPrior, hp, this]
-      | false =>
-        have hd : skipDepth w = 0 := by simp [skipDepth, hm]
-        have hp : b.priorMuted = false := by
-          cases hp : b.priorMuted with
-          | false => rfl
-          | true => have := hc1 hp; rw [hm] at this; exact absurd this (by simp)
-        have hpr : pruneState env.skip (w'.events ++ [mkEvent w .blockEnd b (r.head?.map (·.id))]) =
-            (0, w.events ++ [mkEvent w .blockEnd b (r.head?.map (·.id))]) := by
-          rw [pruneState_snoc, hev, hd, pruneStep_end_live _ _ _ (by simp [mkEvent])]
-        simp only [Bool.false_eq_true, ↓reduceIte, hg]
-        split
-        · refine ⟨rfl, ?_, ?_⟩
-          · simp [prune, hpr]
-          · intro hk; simp [keepsGoing, catchable] at hk
-        · rw [blockSim_view hb]
+        | false =>
+          have hd : skipDepth w = 0 := by simp [skipDepth, hm]
+          have hp : b.priorMuted = false := by
+            cases hp : b.priorMuted with
+            | false => rfl
+            | true => have := hc1 hp; rw [hm] at this; exact absurd this (by simp)
+          have hpr : pruneState env.skip (w'.events ++ [mkEvent w .blockEnd b (r.head?.map (·.id))]) =
+              (0, w.events ++ [mkEvent w .blockEnd b (r.head?.map (·.id))]) := by
+            rw [pruneState_snoc, hev, hd, pruneStep_end_live _ _ _ (by simp [mkEvent])]
+          simp only [Bool.false_eq_true, ↓reduceIte]
+          rw [blockSim_view hb]
           apply ih
           constructor <;> simp [h.buf, h.anon, h.nextId, h.sigLocs, h.curLocs, h.startLoc, h.mainTok, h.debugLog, h.unmuted, hpm', hp]
           · exact hr
